@@ -360,7 +360,28 @@ def check(run: Run) -> None:
             elif _correlated_projection(None, pj, pf, pdoc):
                 continue  # judged as a whole by _correlated_projection below
             else:
-                ok = isinstance(lossy, ast.Constant) and lossy.value is True and isinstance(kw.get("fields_omitted"), (ast.List, ast.Tuple)) and bool(kw["fields_omitted"].elts)
+                fo = kw.get("fields_omitted")
+                fo_ok = isinstance(fo, (ast.List, ast.Tuple)) and bool(fo.elts)
+                if not fo_ok and fo is not None:
+                    # `list(omitted)` / `omitted` with a local that is only ever bound to non-empty constant sequences (one per view)
+                    src = fo.args[0] if isinstance(fo, ast.Call) and isinstance(fo.func, ast.Name) and fo.func.id in ("list", "tuple", "sorted") and len(fo.args) == 1 and not fo.keywords else fo
+                    if isinstance(src, ast.Name):
+                        vals = []
+                        for a in walk_no_nested(pf.node):
+                            if isinstance(a, ast.Assign) and len(a.targets) == 1:
+                                t = a.targets[0]
+                                if is_name(t, src.id):
+                                    vals.append(a.value)
+                                elif isinstance(t, ast.Tuple) and any(is_name(e, src.id) for e in t.elts):
+                                    i = [is_name(e, src.id) for e in t.elts].index(True)
+                                    vals.append(a.value.elts[i] if isinstance(a.value, ast.Tuple) and len(a.value.elts) == len(t.elts) else None)
+                            elif isinstance(a, (ast.AugAssign, ast.AnnAssign, ast.NamedExpr, ast.For)) and any(is_name(x, src.id) and isinstance(x.ctx, ast.Store) for x in ast.walk(a.target)):
+                                vals.append(None)
+                        folded = [run.project.try_fold(pj, v) if v is not None else None for v in vals]
+                        fo_ok = bool(folded) and all(isinstance(f, (list, tuple)) and len(f) > 0 and all(isinstance(x, str) for x in f) for f in folded)
+                        if fo_ok:
+                            n_filtered += len(folded) - 1  # one construction serves that many filtered views
+                ok = isinstance(lossy, ast.Constant) and lossy.value is True and fo_ok
                 run.instance("R14.2", pj.loc(n), f"project: filtered view (filtered_doc={norm(fd) if fd is not None else None}) reports lossy=True with a non-empty fields_omitted", ok=ok)
                 if not ok:
                     run.violation("R14.2", pj, pf.qualname, n, "a projection whose document is not the input document reports lossy other than the constant True (or an empty fields_omitted): a view that leaves things out claims to be complete")
